@@ -226,16 +226,25 @@ def run(ctx):
                     ats.append((bid, i, e, n))
                 if n.get("k") == "subscript" and "positionals" in fmt(n.get("base")):
                     raw.append((bid, i, e, n))
-        ctx.need("R12.5", "index normalisation in arguments::get(int)", len(adds), 1)
-        neg = ("a", "(%s < 0)" % p)
-        for bid, i, e, n in adds:
-            ok, _ = fe2.proves(g, bid, i, neg)
-            ctx.check(ok, "R12.5", g, "adds-size-only-when-negative", "the index is shifted by size() on a path where it is not negative", (g, e.get("ln")))
-            r = fmt(n["r"])
-            ctx.check("size()" in r and "positionals" in r and n["op"] == "+=", "R12.5", g, "adds-size", "a negative index is normalised with %s instead of += size()" % fmt(n), (g, e.get("ln")))
-        # on the path where i < 0 the addition must happen
-        okm, path = cfg.must_happen_before_exit(g, lambda e: any(e is a[2] for a in adds), edge_ok=lambda b, to, lab: not (g.term(b).get("cond") is not None and fmt(g.term(b)["cond"]) == "(%s < 0)" % p and lab == "false"))
-        ctx.check(okm, "R12.5", g, "negative-always-normalised", "a negative index can reach the access without being normalised", g)
+        # path-sensitive symbolic evaluation of the index handed to at(): a linear form over {i, size} per sign of i
+        res = _index_by_sign(g, p, ats)
+        if res is None or isinstance(res, str):
+            ctx.broken("R12.5", g, "index-form", "cannot evaluate the index handed to at() as a linear form of the parameter and size(): %s" % (res or "unrecognised statement"), g)
+        else:
+            ctx.need("R12.5", "index normalisation in arguments::get(int)", len(res), 2)
+            seen_signs = set()
+            for sign, lin, ln in res:
+                want = {"i": 1, "S": 1} if sign == "neg" else {"i": 1}
+                seen_signs.add(sign)
+                if sign == "any":
+                    ctx.bad("R12.5", g, "index-by-sign:any@%s" % _show_lin(lin), "the index %s reaches at() without a test of its sign: negative and non-negative indices cannot both be right" % _show_lin(lin), (g, ln))
+                else:
+                    ctx.check(lin == want, "R12.5", g, "index-by-sign:%s" % sign,
+                              "for a %s index the element accessed is at(%s) instead of at(%s)" % ("negative" if sign == "neg" else "non-negative", _show_lin(lin), _show_lin(want)), (g, ln),
+                              why_ok="at(%s)" % _show_lin(lin))
+            for sgn in ("neg", "nonneg"):
+                if "any" not in seen_signs:
+                    ctx.check(sgn in seen_signs, "R12.5", g, "sign-reaches-access:" + sgn, "no path with a %s index reaches the access" % ("negative" if sgn == "neg" else "non-negative"), g)
         ctx.check(len(ats) >= 1 and not raw, "R12.5", g, "range-checked-access", "positionals are accessed with unchecked operator[]: an index outside [-n, n) reads out of bounds instead of raising", g)
 
     # ---- R12.6
@@ -323,3 +332,182 @@ def _is_limit_raise(fn, b, lst):
         if c is not None and "allowed_positionals_" in fmt(c) and lst in fmt(c):
             return True
     return False
+
+
+def _show_lin(lin):
+    parts = []
+    for k in ("i", "S"):
+        c = lin.get(k, 0)
+        if c:
+            parts.append(("%s" if c == 1 else "%d*%%s" % c) % {"i": "i", "S": "size()"}[k])
+    if lin.get("1", 0) or not parts:
+        parts.append(str(lin.get("1", 0)))
+    return " + ".join(parts)
+
+
+def _index_by_sign(g, p, ats):
+    """[(sign, linear form, line)] of the argument of every at() call over all paths of the loop-free function g;
+    sign in neg/nonneg/any says what the path knows about the parameter p. str = reason it cannot be evaluated."""
+    if cfg.loop_blocks(g):
+        return "the function has a loop"
+
+    def lin_add(a, b, k=1):
+        out = dict(a)
+        for key, v in b.items():
+            out[key] = out.get(key, 0) + k * v
+        return {key: v for key, v in out.items() if v}
+
+    def meet(s1, s2):
+        if s1 == "any":
+            return s2
+        if s2 == "any" or s1 == s2:
+            return s1
+        return None  # contradictory
+
+    def ev(n, env):
+        """alternatives [(sign, lin)] or None"""
+        n = ir.unwrap(n)
+        if not isinstance(n, dict):
+            return None
+        k = n.get("k")
+        if k == "lit" and n.get("t") == "int":
+            return [("any", {"1": n["v"]} if n["v"] else {})]
+        if k == "cast":
+            return ev(n["e"], env)
+        if k == "ref":
+            d = n.get("decl", "")
+            nm = d.split(":", 1)[1] if ":" in d else d
+            return env.get(nm)
+        if k == "call" and short(n.get("name") or "") in ("size", "length") and "positionals" in fmt(n.get("this")):
+            return [("any", {"S": 1})]
+        if k == "un" and n["op"] == "-":
+            a = ev(n["e"], env)
+            return None if a is None else [(sg, lin_add({}, l, -1)) for sg, l in a]
+        if k == "bin" and n["op"] in ("+", "-"):
+            a, b = ev(n["l"], env), ev(n["r"], env)
+            if a is None or b is None:
+                return None
+            out = []
+            for s1, l1 in a:
+                for s2, l2 in b:
+                    m = meet(s1, s2)
+                    if m is not None:
+                        out.append((m, lin_add(l1, l2, 1 if n["op"] == "+" else -1)))
+            return out
+        if k == "cond":
+            st = sign_test(n["c"], env)
+            if st is None:
+                return None
+            t, f = ev(n["t"], env), ev(n["f"], env)
+            if t is None or f is None:
+                return None
+            out = []
+            for (sg, arm) in ((st, t), ({"neg": "nonneg", "nonneg": "neg"}[st], f)):
+                for s1, l1 in arm:
+                    m = meet(sg, s1)
+                    if m is not None:
+                        out.append((m, l1))
+            return out
+        return None
+
+    def sign_test(c, env):
+        """'neg' if c is true exactly for a negative parameter, 'nonneg' if exactly for a non-negative one, else None"""
+        c = ir.unwrap(c)
+        u = ir.as_unop(c)
+        if u and u[0] == "!":
+            r = sign_test(u[1], env)
+            return None if r is None else {"neg": "nonneg", "nonneg": "neg"}[r]
+        bo = ir.as_binop(c)
+        if not bo:
+            return None
+        op, l, r = bo
+        a, b = ev(l, env), ev(r, env)
+        if a is None or b is None or len(a) != 1 or len(b) != 1:
+            return None
+        d = lin_add(a[0][1], b[0][1], -1)  # l - r
+        flip = False
+        if d.get("i", 0) == -1:
+            d = lin_add({}, d, -1)
+            flip = True
+        if d.get("i", 0) != 1 or d.get("S", 0):
+            return None
+        c0 = d.get("1", 0)
+        if flip:
+            op = {"<": ">", ">": "<", "<=": ">=", ">=": "<="}.get(op)
+        # i + c0 op 0
+        if (op == "<" and c0 == 0) or (op == "<=" and c0 == 1):
+            return "neg"
+        if (op == ">=" and c0 == 0) or (op == ">" and c0 == 1):
+            return "nonneg"
+        return None
+
+    at_ids = {id(a[3]): a for a in ats}
+    results = []
+    err = []
+
+    def run(b, sign, env, depth=0):
+        if depth > 64:
+            err.append("path too long")
+            return
+        env = dict(env)
+        for e in g.elems(b):
+            x = e.get("expr")
+            if x is None:
+                continue
+            for n in walk(x, into_sc=False):
+                if id(n) in at_ids:
+                    args = n.get("args", [])
+                    v = ev(args[0], env) if args else None
+                    if v is None:
+                        err.append("index expression %s" % fmt(args[0] if args else n))
+                        continue
+                    for sg, l in v:
+                        m = meet(sign, sg)
+                        if m is not None:
+                            results.append((m, l, n.get("ln")))
+            xs = ir.unwrap(x)
+            if isinstance(xs, dict) and xs.get("k") == "decl":
+                for v in xs.get("vars", []):
+                    if v.get("init") is not None and ("int" in (v.get("type") or "") or "size_t" in (v.get("type") or "") or "long" in (v.get("type") or "")):
+                        env[v["name"]] = ev(v["init"], env)
+            for eff, lv, n in tree_effects(x, into_sc=False):
+                if eff in ("write", "maybe_write") and lv is not None:
+                    kind, key, _ = lvalue_root(lv)
+                    if kind in ("local", "param") and key in env:
+                        if n.get("k") == "bin" and n["op"] in ("=", "+=", "-="):
+                            if n["op"] == "=":
+                                env[key] = ev(n["r"], env)
+                            else:
+                                env[key] = ev({"k": "bin", "op": n["op"][0], "l": n["l"], "r": n["r"]}, env)
+                        else:
+                            env[key] = None
+        if g.is_noreturn(b):
+            return
+        ss = g.succs(b)
+        t = g.term(b)
+        if len(ss) == 2 and t.get("cond") is not None and t.get("kind") not in ("cond",):
+            st = sign_test(t["cond"], env)
+            for to, lab in ss:
+                if st is None:
+                    run(to, sign, env, depth + 1)
+                else:
+                    sg = st if lab == "true" else {"neg": "nonneg", "nonneg": "neg"}[st]
+                    m = meet(sign, sg)
+                    if m is not None:
+                        run(to, m, env, depth + 1)
+        elif len(ss) == 2 and t.get("kind") == "cond":
+            # the arms of ?: are evaluated inside the expression (ev handles the node); follow one arm only to reach the join
+            run(ss[0][0], sign, env, depth + 1)
+        else:
+            for to, lab in ss:
+                run(to, sign, env, depth + 1)
+
+    run(g.entry, "any", {p: [("any", {"i": 1})]})
+    if err:
+        return "; ".join(sorted(set(err)))
+    # one entry per (sign, form, line)
+    uniq = []
+    for r in results:
+        if r not in uniq:
+            uniq.append(r)
+    return uniq
